@@ -141,3 +141,32 @@ Theorem cli_options_modelled :
   (site_index_shift = 0 \/ site_index_shift = 1)%Z.
 Proof. exact cli_options_modelled_l. Qed.
 Print Assumptions cli_options_modelled.
+
+(* The specification is fixed on the property side (spec_switches: fixed index = cleavage residue,
+   sort key = (sequence, full header)); under it the two conditional theorems above hold
+   unconditionally: *)
+Theorem spec_fixed_kept_and_order_free :
+  forall sample, (forall k l, Permutation (sample k l) l) ->
+  forall cfg, spec_switches cfg ->
+  (forall targets o, run sample cfg targets = Ok o ->
+     Forall2 (fun t d => length (r_seq d) = length (r_seq t) /\
+                         forall q, must_keep cfg (r_seq t) q ->
+                                   nth_error (r_seq d) q = nth_error (r_seq t) q)
+             (o_targets o) (o_decoys o)) /\
+  (forall targets targets', Permutation targets targets' ->
+     run sample cfg targets = run sample cfg targets').
+Proof.
+  intros sample Hs cfg [Hsh Hk]. split.
+  - intros targets o Hrun. exact (decoy_fixed_kept_l sample Hs cfg targets o Hrun Hsh).
+  - intros targets targets' HP. apply order_independent_l; [exact HP | left; exact Hk].
+Qed.
+Print Assumptions spec_fixed_kept_and_order_free.
+
+(* ... and the switches translated from the CURRENT source (Gen/DecoyCli.v, regenerated on every
+   run) are exactly the specified ones: site index = match.end() - 1, exception literal
+   'trypsin_exception', sort key (x.seq, x.description).  Any other key - x.seq alone, (x.seq, x.id),
+   ... - is translated to a different value and this obligation fails. *)
+Theorem code_matches_spec :
+  site_index_shift = 1%Z /\ trypsin_exception_literal = trypsin_exc_name /\ sort_key_variant = 1%Z.
+Proof. exact code_matches_spec_l. Qed.
+Print Assumptions code_matches_spec.
